@@ -125,6 +125,11 @@ Section Mdiff.
       mkNew done cur (new_emit_lcur lcur nx ny) (new_emit_rcur rcur nx ny)
     end.
 
+  (* the order of the switch cases in New's loop body (OpDrop, OpCopy, OpReplace, OpEmit), as the
+     translator found them; [new_step] above matches on the same four constructors.  A reordered
+     or relabelled case loses its anchor. *)
+  Definition new_switch_cases : list Z := [new_case0 0; new_case1 1; new_case2 2; new_case3 3].
+
   (* the Chunks field of New(lhs, rhs) when slice.EditScript(lhs, rhs) returned [es] *)
   Definition new_chunks (es : list (edit T)) : list chunk :=
     let st := fold_left new_step es new_init in
@@ -238,7 +243,7 @@ Section Mdiff.
   (* if lap > 0 { ... }: cut the overlapping lines off one context edit *)
   Definition uc_trim (last c : chunk) (lap : Z) : res (chunk * chunk) :=
     bind (deref (ptr_at (edits last) uc_end_idx)) (fun en =>
-    bind (if is_emit en then
+    bind (if uc_end_emit (is_emit en) then
             (* last has post-context *)
             bind (if uc_end_whole lap (len (X en))
                   then take (edits last) (uc_end_drop_hi (len (edits last)))
@@ -248,7 +253,7 @@ Section Mdiff.
                             (RStart last) (uc_end_rend (REnd last) lap), c))
           else
             bind (deref (ptr_at (edits c) uc_start_idx)) (fun st =>
-            if is_emit st then
+            if uc_start_emit (is_emit st) then
               (* c has pre-context *)
               bind (if uc_start_whole lap (len (X st))
                     then drop (edits c) uc_start_drop_lo
